@@ -6,6 +6,7 @@ import (
 	"io"
 	"strings"
 	"sync"
+	"time"
 
 	"github.com/emersion/go-sasl"
 	smtp "github.com/emersion/go-smtp"
@@ -67,6 +68,8 @@ type Backend struct {
 	// Gate, if set, is called at the step boundaries of Data/LMTPData
 	// (engine X makes these scheduling points).
 	Gate func(step string)
+	// Delay: Mail and Rcpt take that long (time.Sleep: the virtual clock inside a bubble) - a slow backend
+	Delay time.Duration
 	// LogoutErr is returned by Logout.
 	LogoutErr error
 	// ByContent: the message itself says what to do with it (first line
@@ -234,6 +237,9 @@ func (s *sess) Mail(from string, opts *smtp.MailOptions) (err error) {
 	e := s.b.add(&Event{Sess: s.id, Kind: "Mail", Arg: from, Opts: MailOptsString(opts)})
 	defer func() { e.Ret = errStr(err); e.Ended = true }()
 	s.b.gate("cb:Mail")
+	if s.b.Delay > 0 {
+		time.Sleep(s.b.Delay)
+	}
 	if s.b.Override != nil {
 		if oerr, ok := s.b.Override("Mail", from); ok {
 			return oerr
@@ -251,6 +257,9 @@ func (s *sess) Rcpt(to string, opts *smtp.RcptOptions) (err error) {
 	e := s.b.add(&Event{Sess: s.id, Kind: "Rcpt", Arg: to, Opts: RcptOptsString(opts)})
 	defer func() { e.Ret = errStr(err); e.Ended = true }()
 	s.b.gate("cb:Rcpt")
+	if s.b.Delay > 0 {
+		time.Sleep(s.b.Delay)
+	}
 	if s.b.Override != nil {
 		if oerr, ok := s.b.Override("Rcpt", to); ok {
 			return oerr
